@@ -159,7 +159,7 @@ class Run:
     pass
 
 
-def register_edits(case, bu, ctx, rec, functions, order=None):
+def register_edits(case, bu, ctx, rec, functions, order=None, extras=True):
     isa = case["isa"]
     fn_by_name = {}
     for f in functions:
@@ -168,8 +168,17 @@ def register_edits(case, bu, ctx, rec, functions, order=None):
             fn_by_name[s.name] = f
     for f in functions:
         fn_by_name.setdefault(f.get_name(), f)
+    # names looked up through get_or_insert_extern_symbol that the module
+    # already has (defined or extern): the existing symbol must come back
+    if not extras:
+        case = dict(case, extern_lookups=[], newfuncs=[])
+    else:
+        bu.extern_lookups = []
+        bu.new_functions = {}
+    for nme in case.get("extern_lookups", []):
+        s = ctx.get_or_insert_extern_symbol(nme, "libverif.so")
+        bu.extern_lookups.append((nme, s is bu.symbols.get(nme)))
     # whole functions added with register_insert_function
-    bu.new_functions = {}
     for k, nf in enumerate(case.get("newfuncs", [])):
         bu.new_functions[nf["name"]] = ctx.register_insert_function(
             nf["name"], make_patch(isa, nf["p"], 1000 + k, rec))
@@ -261,12 +270,40 @@ def run(case, fault_at=None, fault_kind="raise", seed=0, driver=None,
     r.orig_cfg = bu.ir.cfg
     _current = rec
     try:
-        ctx = RewritingContext(m, functions)
-        r.ctx = ctx
-        register_edits(case, bu, ctx, rec, functions, register_order)
-        if before_apply:
-            before_apply(r)
-        ctx.apply()
+        if case.get("driver") == "passes" and register_order is None:
+            # the same rewrite through PassManager: two passes register the
+            # modifications (first half / second half, so that registration
+            # order is kept), the manager builds the functions and applies
+            from gtirb_rewriting import Pass, PassManager
+            n = len(case["edits"])
+            halves = [list(range(0, (n + 1) // 2)),
+                      list(range((n + 1) // 2, n))]
+
+            class Half(Pass):
+                def __init__(self, idxs, first):
+                    self.idxs, self.first = idxs, first
+
+                def begin_module(self, module, functions_, ctx_):
+                    if module is not m:
+                        return
+                    if self.first:
+                        r.ctx = ctx_
+                        r.functions = functions_
+                    register_edits(case, bu, ctx_, rec, functions_,
+                                   self.idxs, extras=self.first)
+                    if not self.first and before_apply:
+                        before_apply(r)
+            pm = PassManager()
+            pm.add(Half(halves[0], True))
+            pm.add(Half(halves[1], False))
+            pm.run(bu.ir)
+        else:
+            ctx = RewritingContext(m, functions)
+            r.ctx = ctx
+            register_edits(case, bu, ctx, rec, functions, register_order)
+            if before_apply:
+                before_apply(r)
+            ctx.apply()
     except Exception as exc:  # noqa
         r.exception = exc
     finally:
